@@ -291,6 +291,64 @@ func c18Check(l *explore.Local, _ struct{}, c c18Case) *explore.Fail {
 	return nil
 }
 
+// ---- C18 (c): a register keeps reading back what was written for as long as nobody writes it ------------
+
+type c18Keep struct {
+	Reg     uint16 `json:"reg"`
+	Trigger bool   `json:"trigger"` // all four channels are triggered after the write (envelopes, sweep, length then run)
+}
+
+// c18KeepCheck writes every value to the register (a fresh APU per value), optionally triggers the channels, and
+// lets 20 envelope periods of emulated time pass (327,680 machine cycles), reading all registers back every 4,096
+// cycles: the hardware's own activity (envelope, sweep, length, frame sequencer) must never change what a
+// register reads back. NR52's status bits are C19's.
+func c18KeepCheck(l *explore.Local, _ struct{}, c c18Keep) *explore.Fail {
+	for v := 0; v < 256; v++ {
+		if c.Reg != 0xff12 && c.Reg != 0xff17 && c.Reg != 0xff21 && c.Reg != 0xff10 && v%17 != 0 && v != 0x7f && v != 0x80 {
+			continue // all 256 values for the envelope and sweep registers, 18 values for the others
+		}
+		p := newAPUPair()
+		p.write(0xff26, 0x00)
+		p.write(0xff26, 0x80)
+		for _, w := range [][2]uint16{{0xff11, 0x80}, {0xff12, 0x73}, {0xff16, 0x40}, {0xff17, 0x2b}, {0xff1a, 0x80}, {0xff1c, 0x40}, {0xff21, 0x94}, {0xff24, 0x77}, {0xff25, 0xff}, {0xff13, 0x00}, {0xff10, 0x00}} {
+			if w[0] != c.Reg {
+				p.write(w[0], uint8(w[1]))
+			}
+		}
+		val := uint8(v)
+		if c.Reg == 0xff14 || c.Reg == 0xff19 || c.Reg == 0xff1e || c.Reg == 0xff23 {
+			val &= 0x7f
+		}
+		p.write(c.Reg, val)
+		if c.Trigger {
+			for _, a := range []uint16{0xff14, 0xff19, 0xff1e, 0xff23} {
+				if a != c.Reg {
+					p.write(a, 0x86)
+				}
+			}
+		}
+		for t := 0; t < 80; t++ {
+			for i := 0; i < 4096; i++ {
+				p.m.A.EndMachineCycle()
+			}
+			l.Trans(1)
+			for _, a := range apuRegs {
+				want, mask := p.mod.Read(a)
+				if got := p.m.Map.Read(a); got&mask != want&mask {
+					return explore.Failf(fmt.Sprintf("%s reads wrong (power on)", ref.NRName[a]),
+						"%s<-%02x (channels triggered: %v), then %d machine cycles without any write: %04x reads %02x, documented %02x", ref.NRName[c.Reg], val, c.Trigger, (t+1)*4096, a, got, want)
+				}
+			}
+			if got := p.m.Map.Read(0xff26); got&0xf0 != 0xf0 {
+				return explore.Failf("NR52 bits 4-6 do not read 1", "NR52 reads %02x", got)
+			}
+		}
+	}
+	l.Eval(1)
+	l.OutcomeStr(fmt.Sprint(c))
+	return nil
+}
+
 func init() {
 	vals := []uint8{0x00, 0xff, 0x55, 0xaa, 0x80, 0x7f, 0x08, 0xf7}
 	var a18 []apuEv
@@ -312,7 +370,7 @@ func init() {
 
 	register("C18", "model_checking", func(c *Ctx) {
 		if c.R != nil {
-			c.R.Rule = "(a) every register NR10-NR51 x all 256 values x power state {on, off, off-then-on}, each preceded by a write of the complementary value: all 20 registers, NR52 and three wave-RAM bytes are read back and compared with the reference (last written value OR mask while on; masks while off; writes ignored while off except NR52 and the length registers; wave RAM preserved); (b) every sequence up to the depth bound over {write r<-v for all 20 registers + 3 wave-RAM bytes x 8 values (no trigger bits), NR52<-00, NR52<-80, 1 cycle, 2,048 cycles, 4,096 cycles}, all registers compared after every event and NR52 after every cycle"
+			c.R.Rule = "(a) every register NR10-NR51 x all 256 values x power state {on, off, off-then-on}, each preceded by a write of the complementary value: all 20 registers, NR52 and three wave-RAM bytes are read back and compared with the reference (last written value OR mask while on; masks while off; writes ignored while off except NR52 and the length registers; wave RAM preserved); (c) every register written once (all 256 values for the sweep and envelope registers) and then left alone for 327,680 cycles with the channels idle or playing: the read-back never changes; (b) every sequence up to the depth bound over {write r<-v for all 20 registers + 3 wave-RAM bytes x 8 values (no trigger bits), NR52<-00, NR52<-80, 1 cycle, 2,048 cycles, 4,096 cycles}, all registers compared after every event and NR52 after every cycle"
 			c.R.Assumptions = []string{"trigger bits are excluded from the write values of (b); status bits under triggers are C19's", "NR52's low nibble is predicted by the shared length/status model"}
 		}
 		explore.Product(c.R, "readback-all-values", explore.PartOpt{Bound: "single write per observation", Domain: "20 registers x 256 values x 3 power states"},
@@ -325,6 +383,16 @@ func init() {
 					}
 				}
 			}, func() struct{} { return struct{}{} }, c18Check)
+		explore.Product(c.R, "readback-over-time", explore.PartOpt{Bound: "327,680 machine cycles (20 envelope clocks) after the write, all registers read back every 4,096 cycles", Domain: "20 registers x values (all 256 for NR10 and the three envelope registers, 18 for the others) x channels triggered or not"},
+			func(yield func(c18Keep) bool) {
+				for _, r := range apuRegs {
+					for _, tr := range []bool{false, true} {
+						if !yield(c18Keep{r, tr}) {
+							return
+						}
+					}
+				}
+			}, func() struct{} { return struct{}{} }, c18KeepCheck)
 		depth := 3
 		if c.Thorough() {
 			depth = 4
